@@ -49,18 +49,6 @@ theorem allTrue_foldl_setAt (idx : List Nat) (l : List Bool) (h : allTrue l = tr
 
 /-! ### stop -/
 
-theorem status_stopped_iff (s : St) : s.status = .stopped ↔ s.errC = false := by
-  unfold St.status
-  cases s.errC <;> simp
-  repeat' split
-  all_goals simp
-
-theorem status_stopping_iff (s : St) : s.status = .stopping ↔ s.errC = true ∧ s.stopAnn = true := by
-  unfold St.status
-  cases s.errC <;> cases s.stopAnn <;> simp
-  repeat' split
-  all_goals simp
-
 /-- After `stop` the torrent is stopped or waits for its stop announcer. -/
 theorem stop_idle (s : St) (e : Bool) : (s.stop e).errC = false ∨ (s.stop e).stopAnn = true := by
   rw [stop_eq]
@@ -262,6 +250,8 @@ theorem handlePieceWriteDone_comp (m : M) (w : WriteJob) (e : Bool) (h : CompInv
   dsimp only
   split
   · exact pwdBan_comp _ _ h0
+  split
+  · exact h0
   · split
     · simp only [onSt_fst]; exact stop_comp _ _ h0
     · have h1 : CompInv (pwdDone (pwdReset m w) w).1 := by comp_frame h0
@@ -278,6 +268,7 @@ theorem writerRun_comp (m : M) (w : WriteJob) (h : CompInv m.1) : CompInv (write
   all_goals first
     | exact handlePieceWriteDone_comp _ _ _ h
     | exact handlePieceWriteDone_comp _ _ _ (h.of_frame rfl rfl rfl rfl rfl rfl rfl rfl)
+    | exact h.of_frame rfl rfl rfl rfl rfl rfl rfl rfl
 
 /-! ### allocation, verification -/
 
@@ -357,12 +348,19 @@ theorem handleAllocationDone_comp (m : M) (ex mi : Bool) (h : CompInv m.1) :
       exact ⟨hcc, hall, fun _ _ _ hv => by simp at hv⟩
 
 theorem allocatorRun_comp (m : M) (h : CompInv m.1) : CompInv (allocatorRun m).1 := by
-  unfold allocatorRun
-  dsimp only
+  rw [allocatorRun_eq]
   split
-  · simp only [onSt_fst]
-    exact stop_comp' _ _ h.cc h.all
-  · exact handleAllocationDone_comp _ _ _ (h.of_frame rfl rfl rfl rfl rfl rfl rfl rfl)
+  · unfold allocFail
+    simp only [onSt_fst]
+    refine stop_comp' _ _ (by simpa using h.cc) ?_
+    intro hc
+    unfold hadForget
+    simp only [onSt_fst]
+    split
+    · exact Or.inl rfl
+    · have := h.all (by simpa using hc)
+      simpa using this
+  · exact handleAllocationDone_comp _ _ _ (h.of_frame (by simp) (by simp) (by simp) (by simp) (by simp) (by simp) (by simp) (by simp))
 
 theorem hvdPre_bf (m : M) : (hvdPre m).1.bf = some m.1.diskOK := by
   simp [hvdPre]
@@ -406,6 +404,7 @@ theorem runWorkers_comp (fuel : Nat) (m : M) (h : CompInv m.1) : CompInv (runWor
            | exact handleStopped_comp m h
            | exact allocatorRun_comp m h
            | exact handleVerificationDone_comp m h
+           | exact handlePieceWriteDone_comp m _ _ h
            | exact writerRun_comp m _ h)
 
 theorem mutate_comp (s : St) (f : Option Nat) (how : Mut) (h : CompInv s) : CompInv (mutate s f how) := by
